@@ -15,10 +15,10 @@ import (
 )
 
 type c13Case struct {
-	Transport  string `json:"transport"` // virtual: inproc | fconn | fconn-tls ; real: tcp | ws | wss | inproc
+	Transport  string `json:"transport"`       // virtual: inproc | fconn | fconn-tls ; real: tcp | ws | wss | inproc
 	TLS12      bool   `json:"tls12,omitempty"` // fconn-tls: TLS capped at version 1.2 (the close notification is visible as such; crypto/tls then hands over the last record together with io.EOF)
-	Wiring     string `json:"wiring"`    // channel (bare ClientChannel) | client (lime.Client)
-	Initiator  string `json:"initiator"` // client-finish | server-finish | server-fail | client-close | server-close
+	Wiring     string `json:"wiring"`          // channel (bare ClientChannel) | client (lime.Client)
+	Initiator  string `json:"initiator"`       // client-finish | server-finish | server-fail | client-close | server-close
 	ChanBuf    int    `json:"chanBuf"`
 	InprocBuf  int    `json:"inprocBuf,omitempty"`
 	C2S        int    `json:"c2s"`        // envelopes the client side sends
